@@ -501,19 +501,23 @@ def gen_random(rng, depth, real: Real, ctr):
     prefixes = [PA, PB, PC]
     w_send = {"steady": 50, "churn": 30, "starve": 60, "mixed": 40}[mode]
     w_circ = {"steady": 14, "churn": 30, "starve": 4, "mixed": 16}[mode]
-    kinds = ["send", "anon", "settc", "newc", "hop", "close", "rm", "cancreate", "burst", "listener", "notify", "dump"]
-    weights = [w_send, 6, 6 if mode != "churn" else 12, 4, w_circ, w_circ // 3 + 1, w_circ // 3 + 1, 2, 1, 1, 2, 2]
+    kinds = ["send", "anon", "settc", "newc", "hop", "close", "rm", "cancreate", "burst", "listener", "notify", "dump",
+             "mkready"]
+    weights = [w_send, 5, 5 if mode != "churn" else 10, 4, w_circ, w_circ // 3 + 1, w_circ // 3 + 1, 2, 1, 1, 2, 2,
+               {"steady": 5, "churn": 6, "starve": 1, "mixed": 3}[mode]]
     # a typical start: overlay A anonymized, community attached
-    if rng.random() < 0.7:
+    if rng.random() < 0.8:
         yield ("anon", PA, True)
-    if rng.random() < 0.7:
+    if rng.random() < 0.3:
+        yield ("anon", PC, True)
+    if rng.random() < 0.8:
         yield ("settc", True, rng.choice([1, 1, 2, 3]))
     for _ in range(depth):
         kind = rng.choices(kinds, weights)[0]
         ncirc = len(real.tc.circuits)
         if kind == "send":
             r = rng.random()
-            pfx = rng.choices(prefixes, [6, 2, 2])[0]
+            pfx = rng.choices(prefixes, [7, 1, 2])[0]
             ctr[0] += 1
             body = ctr[0].to_bytes(3, "big") + bytes(rng.randrange(256) for _ in range(rng.choice([0, 0, 1, 5])))
             if r < 0.04:
@@ -530,7 +534,7 @@ def gen_random(rng, depth, real: Real, ctr):
             key = rng.choice(ODD_KEYS) if r < 0.1 else rng.choices(prefixes, [5, 2, 3])[0]
             yield ("anon", key, rng.random() < 0.65)
         elif kind == "settc":
-            if rng.random() < 0.3:
+            if rng.random() < (0.35 if mode == "churn" else 0.2):
                 yield ("settc", False, 1 if rng.random() < 0.8 else rng.choice([0, 2]))
             else:
                 yield ("settc", True, rng.choice([1, 1, 1, 2, 2, 3, 0]))
@@ -558,6 +562,24 @@ def gen_random(rng, depth, real: Real, ctr):
             yield ("listener", len(real.listeners) + 1, rng.choice([True, False, None]))
         elif kind == "notify":
             yield ("notify", rng.random() < 0.5)
+        elif kind == "mkready":
+            # bring one circuit of the configured length to READY with an IPv8 exit (what do_circuits + CREATED/EXTENDED do)
+            hops = real.hops
+            cs = list(real.tc.circuits.values())
+            cand = [i for i, c in enumerate(cs) if not c._closing and c.goal_hops == hops and len(c._hops) < hops
+                    and c.ctype == real.k.CT[0]]
+            if cand:
+                idx = rng.choice(cand)
+                have = len(cs[idx]._hops)
+            elif hops > 0:
+                yield ("newc", hops, 0)
+                idx, have = len(real.tc.circuits) - 1, 0
+            else:
+                continue
+            for j in range(have, hops):
+                last = j == hops - 1
+                yield ("hop", idx, rng.randrange(1, 10), rng.choice([[4], [1, 4], [2, 4]]) if last
+                       else rng.choice([[1], [1, 2], [1, 4], None]))
         else:
             yield ("dump",)
 
@@ -675,6 +697,15 @@ def alphabet(name):
                 lambda i, r: ("close", 0),                          # oldest circuit closes
                 lambda i, r: ("rm", 0),                             # oldest circuit removed
                 lambda i, r: ("hop", last(r), 8, [2])]              # newest circuit becomes ready with a BT-only exit
+    if name == "T":    # exactly the events the property text lists, anonymity as a toggle (8 letters)
+        return [lambda i, r: ("send", 1, PA + bytes([i])),          # send by the anonymized overlay
+                lambda i, r: ("send", 2, PB + bytes([i])),          # send by a plain overlay
+                lambda i, r: ("anon", PA, not r.anon.get(PA, False)),   # anonymity toggled
+                lambda i, r: ("settc", True, 1),                    # tunnel community attached
+                lambda i, r: ("settc", False, 1),                   # … detached
+                lambda i, r: ("hop", last(r), 7, [4]),              # circuit becomes ready
+                lambda i, r: ("close", 0),                          # circuit closes
+                lambda i, r: ("rm", 0)]                             # circuit removed
     if name == "B":    # 2-hop circuits, creation failures, re-attachment with another length
         return [lambda i, r: ("send", 1, PA + bytes([i])),
                 lambda i, r: ("anon", PA, True),
@@ -719,7 +750,7 @@ def exhaustive_tier(ctx: Ctx, name: str, k: int, depth: int, use_model: bool, pl
                 word = pre + suf
                 real, ops, reply = run_word(alpha, word)
                 n += 1
-                ctx.case((name, k, word), real.nontrivial)
+                ctx.case(f"{name}{k}:" + "".join(DIGITS[x] for x in word), real.nontrivial)
                 if real.fail is not None:
                     report_fail(ctx, real, ops, 2, f"exhaustive alphabet {name}[:{k}] word {''.join(DIGITS[x] for x in word)}")
                     if len(ctx.failures) >= 20:
@@ -847,8 +878,7 @@ def run(ctx: Ctx):
         return replay(ctx, ctx.replay_input)
     if ctx.model_ok:
         check_consts(ctx)
-    if ctx.thorough():
-        exhaustive_tier(ctx, "A", 9, 7, ctx.model_ok)       # the property's own event list, to depth 7
+    exhaustive_tier(ctx, "T", 8, ctx.scale(5, 7), ctx.model_ok)    # the property's own event list (depth 7 in thorough)
     exhaustive_tier(ctx, "A", 10, ctx.scale(5, 6), ctx.model_ok)
     exhaustive_tier(ctx, "B", 12, ctx.scale(4, 5), ctx.model_ok)
     random_tier(ctx, ctx.scale(1200, 15000), ctx.model_ok)
